@@ -400,13 +400,17 @@ class H2Protocol:
             )
         except priority.MissingStreamError:
             # Received PRIORITY frame before HEADERS frame
-            self.priority.insert_stream(
-                stream_id=event.stream_id,
-                depends_on=event.depends_on or None,
-                weight=event.weight,
-                exclusive=event.exclusive,
-            )
-            self.priority.block(event.stream_id)
+            try:
+                self.priority.insert_stream(
+                    stream_id=event.stream_id,
+                    depends_on=event.depends_on or None,
+                    weight=event.weight,
+                    exclusive=event.exclusive,
+                )
+            except priority.TooManyStreamsError:
+                pass  # Priorities are advisory, this one is ignored
+            else:
+                self.priority.block(event.stream_id)
         await self.has_data.set()
 
     async def _create_stream(self, request: h2.events.RequestReceived) -> None:
@@ -454,6 +458,13 @@ class H2Protocol:
         except priority.DuplicateStreamError:
             # Recieved PRIORITY frame before HEADERS frame
             pass
+        except priority.TooManyStreamsError:
+            # The priority tree is full (of PRIORITY frames for idle
+            # streams), so this stream cannot be scheduled.
+            del self.streams[request.stream_id]
+            del self.stream_buffers[request.stream_id]
+            self.connection.reset_stream(request.stream_id, h2.errors.ErrorCodes.REFUSED_STREAM)
+            return
         else:
             self.priority.block(request.stream_id)
 
